@@ -419,6 +419,8 @@ static J plan_c07(uint64_t seed, const std::string &tier, bool secrets, const st
       pre_scribble(g, op, 15, 25, 10);
       if (g.chance(1, 3)) { static const long e0[] = {22, 34, 12, 4, 1234, 2, 11}; op["errno0"] = e0[g.below(7)]; }   // errno is arbitrary at entry
       if (g.chance(1, 8)) op["guard"] = 1;        // arguments end exactly at a page boundary, next page inaccessible
+      else if (g.chance(1, 8)) { static const char *adj[] = {"ph-before", "st-before", "ph-after", "st-after"}; op["adj"] = adj[g.below(4)]; }
+      if (!secrets && g.chance(1, 12)) op["newthread"] = 1;   // the call is made from a thread that exists only for it (not in erasure plans: their stack scan needs the task stack)
       if (g.chance(15, 100)) op["phin"] = 1;
       else if (secrets && g.chance(1, 30)) op["phout"] = 1;   // (erasure plans only: the result of such a call is nobody's promise)
       if (g.chance(15, 100)) op["stin"] = 1;
@@ -643,6 +645,7 @@ static J plan_c17(uint64_t seed, const std::string &tier) {
       if (!r.ph.null) lastphrase = r.ph.b;
       if (op.has("obj")) keyed[(size_t)op.i("obj")] = 0;
     } else { op = gensalt_op(g, true, true, true); }
+    if (g.chance(1, 6)) op["newthread"] = 1;   // e.g. main sets the key, a worker encrypts: the static key is per process, not per thread
     ops.push(op);
   }
   t["ops"] = ops; p["tasks"].push(t);
